@@ -47,17 +47,19 @@ _typed = {}
 
 
 def _mkref(g, n, v, typed):
+    """typed: 0/False = plain PluginRef, 1/True and 2 = two sibling group-specific subclasses"""
     if typed:
-        if g not in _typed:
-            _typed[g] = PluginRef._subclass_for(g)
-        return _typed[g](name=n, version=v)
+        key = (g, int(typed))
+        if key not in _typed:
+            _typed[key] = PluginRef._subclass_for(g)
+        return _typed[key](name=n, version=v)
     return PluginRef(group=g, name=n, version=v)
 
 
 def all_refs():
     out = []
     for i, (g, n, v) in enumerate(itertools.product(GROUPS, NAMES, VERS)):
-        out.append(((g, n, v), _mkref(g, n, v, typed=(i % 2 == 1))))
+        out.append(((g, n, v), _mkref(g, n, v, typed=i % 3)))
     return out
 
 
@@ -136,7 +138,7 @@ def new_group_class():
     return PGSynth
 
 
-def build_group(seq, how):
+def build_group(seq, how, after_each=None):
     """seq: list of (name, version) in registration order."""
     cls = new_group_class()
     if how == "ep":
@@ -147,20 +149,30 @@ def build_group(seq, how):
             eps[epn] = EntryPoint(epn, f"vt_c16_plugins:{key}", ptypes.to_ep_group_name(cls.Plugin.name))
         return cls(eps)
     g = cls({})
-    for n, v in seq:
+    for i, (n, v) in enumerate(seq):
         # fresh class per registration: register_in_group replaces cls.Plugin by a parsed object
         info = type("Plugin", (), dict(name=n, version=v))
         plug = _PM("reg", (object,), {"Plugin": info})
         putil.register_in_group(g, plug, violently=True)
+        if after_each is not None:
+            after_each(g, seq[: i + 1])
     return g
 
 
 def check_group(seq, how, probe_versions=VERS):
     tag = "ep" if how == "ep" else "register"
     try:
-        g = build_group(seq, how)
+        # manual registration is incremental: the group must answer correctly after EVERY registration
+        g = build_group(seq, how, after_each=(lambda grp, sofar: _check_answers(grp, sofar, tag, probe_versions)) if how != "ep" else None)
+    except Violation:
+        raise
     except Exception as e:  # noqa: BLE001
         raise Violation(f"C16:group-{tag}:construct-raises", f"{type(e).__name__}: {e}", "group is built")
+    _check_answers(g, seq, tag, probe_versions)
+    return g
+
+
+def _check_answers(g, seq, tag, probe_versions):
     names = sorted({n for n, _ in seq})
     byname = {n: sorted({tuple(v) for m, v in seq if m == n}) for n in names}
     tup = lambda refs: [tuple(r.version) for r in refs]  # noqa: E731
@@ -263,14 +275,16 @@ def run_shard(shard, tier, seed, rec):
                     break
             rec.case(nt_key=("P", ta, tb) if cl else None, classes=[cl] if cl else [],
                      sample=dict(kind="pair", a=ta, b=tb) if cl and ta[2] == (1, 2, 0) else None)
-        # also: a fresh equal copy (not the same object) of each ref
+        # also: fresh equal copies (not the same object) of each ref, of every class flavour incl. sibling subclasses
         for ta, a in refs:
-            b = _mkref(*ta, typed=False)
-            try:
-                check_pair(ta, a, ta, b)
-            except Violation as v:
-                rec.fail(v.signature, dict(kind="pair", a=ta, b=ta), v.observed, v.expected)
-            rec.case(nt_key=("Pc", ta), classes=["pair_equal"])
+            for flavour in (0, 1, 2):
+                b = _mkref(*ta, typed=flavour)
+                for x, y in ((a, b), (b, a)):
+                    try:
+                        check_pair(ta, x, ta, y)
+                    except Violation as v:
+                        rec.fail(v.signature + ":across-ref-classes", dict(kind="pair", a=ta, b=ta), v.observed, v.expected)
+                rec.case(nt_key=("Pc", ta, flavour), classes=["pair_equal"])
         rec.exhaustive["order_pairs_108_refs"] = True
     elif shard.get("kind") == "triples":
         refs = all_refs()
